@@ -1,4 +1,5 @@
 import Chain33Model.Proofs.C04
+import Chain33Model.Proofs.C01Consistent
 /-!
 C04 — Pending state updates never leak into committed state.  Property theorems only (helpers: Proofs/C04.lean).
 
@@ -148,6 +149,41 @@ theorem forks_independent (s s' : Store) (r₂ : Bytes) (n₂ : Node)
     load s'.db fuel top r₁ = load s.db fuel top r₁ := by
   obtain ⟨_, hsub⟩ := commit_exact_content s s' r₂ n₂ hp hr hc hps hf hcons (depth n₂ + 1) true (by omega)
   exact load_stable s.cfg s.db s'.db hsub n₁ h1 hf1 fuel top r₁ hr1 hd
+
+/-- **commit_exact_content_full / forks_independent_full** (store without the height prefix) — no `Consistent`
+hypothesis: the pending tree is keyed by the hashes of its content (`PH`, `C01.hashNode_keys_content`), the database
+only holds such records (`DBInv`).  Commit then makes exactly the pending tree loadable at its root, keeps every
+earlier record (so every other branch's committed root loads to the same tree, `C01.old_roots_stable`) and keeps
+`DBInv` — or the hash function has a collision. -/
+theorem commit_exact_content_full {H : Bytes → Bytes} (hlen : ∀ x, (H x).length = 32) (s s' : Store) (r : Bytes)
+    (n : Node) (hp : lookupTree s.trees r = some (some n)) (hc : commit s r = (.ok r, s'))
+    (hph : PH H n) (hs : C03.Shape n) (hk : KeyMin n) (hdb : DBInv H s.cfg s.db)
+    (hps : PersistedStored s.cfg s.db n) (hf : FitsRec n) (fuel : Nat) (top : Bool) (hd : depth n < fuel) :
+    (load s'.db fuel top (pureHash H n) = .ok (asLoaded s.cfg n) ∧ Sub s.db s'.db ∧ DBInv H s.cfg s'.db) ∨
+      C03.Collision H := by
+  unfold commit at hc
+  simp only [hp] at hc
+  cases hsv : save s.cfg n s.db with
+  | none => simp [hsv] at hc
+  | some pr =>
+    obtain ⟨n', db'⟩ := pr
+    simp only [hsv, Prod.mk.injEq, true_and] at hc
+    subst hc
+    rcases load_save_full hlen s.cfg n n' s.db db' hsv hph hs hk hdb hps hf fuel top hd with ⟨a, b, _, d⟩ | c
+    · exact Or.inl (by simpa [Store.cacheTree] using And.intro a (And.intro b d))
+    · exact Or.inr c
+
+theorem forks_independent_full {H : Bytes → Bytes} (hlen : ∀ x, (H x).length = 32) (s s' : Store) (r₂ : Bytes)
+    (n₂ : Node) (hp : lookupTree s.trees r₂ = some (some n₂)) (hc : commit s r₂ = (.ok r₂, s'))
+    (hph : PH H n₂) (hs : C03.Shape n₂) (hk : KeyMin n₂) (hdb : DBInv H s.cfg s.db)
+    (hps : PersistedStored s.cfg s.db n₂) (hf : FitsRec n₂)
+    (n₁ : Node) (r₁ : Bytes) (h1 : Stored s.cfg s.db n₁) (hf1 : FitsRec n₁) (hr1 : n₁.info.hk = some r₁)
+    (fuel : Nat) (top : Bool) (hd : depth n₁ < fuel) :
+    load s'.db fuel top r₁ = load s.db fuel top r₁ ∨ C03.Collision H := by
+  rcases commit_exact_content_full hlen s s' r₂ n₂ hp hc hph hs hk hdb hps hf (depth n₂ + 1) true (by omega) with
+    ⟨_, hsub, _⟩ | c
+  · exact Or.inl (load_stable s.cfg s.db s'.db hsub n₁ h1 hf1 fuel top r₁ hr1 hd)
+  · exact Or.inr c
 
 /-- **ops_commute** (for the requests that do not write) — the reply of `MemSet` depends only on the configuration
 and the database, which MemSet / Rollback / Get / restart never change: after *any* two interleavings of such
